@@ -14,8 +14,12 @@ RULE = ('Same chain generator as C01 with denser flush schedules (up to one per 
         '(list equality: loss, duplication and disorder all fail); fs_tx_hash(n) for every n up '
         'to tx_count; tx hashes per block; raw history rows concatenated in key order equal the '
         'model tx numbers. Non-trivial = some script hash has history spread over >= 3 flush rows '
-        'and some tx touches a script hash at least twice.')
-ASSUMPTIONS = ['LevelDB batch atomicity', 'FakeDaemon models bitcoind', 'tx numbers < 2^16']
+        'and some tx touches a script hash at least twice. Second part: the same oracle on '
+        'histories and the tx-number map after C03\'s generated reorganisation histories (an index '
+        'that went through reorgs is an indexed chain too), including the stratum that puts a byte '
+        'boundary of the packed tx numbers (256, 512; 65536 in the thorough tier) inside the undone '
+        'blocks; non-trivial there = at least one reorganisation.')
+ASSUMPTIONS = ['LevelDB batch atomicity', 'FakeDaemon models bitcoind', 'tx numbers < 2^17']
 BUDGET_S = {'quick': 120, 'thorough': 3000}
 PARTS = ('history', 'chain', 'raw')
 
@@ -48,10 +52,39 @@ def body(ctx):
     return run
 
 
+HISTORY_WORDS = ('history', 'tx_hash', 'tx hash', 'tx_num', 'tx number', 'tx_count')
+
+
+def body_reorged(ctx):
+    '''An index that went through reorganisations is an indexed chain too: C03's machine (with
+    its stratum that puts a byte boundary of the packed tx numbers inside the undone blocks),
+    judged on histories and the tx-number map only.'''
+    from pbt.checks import c03
+
+    def run(case):
+        msg, sig, info = c03.run_case(ctx.scratch, case)
+        classes = info['classes']
+        ctx.record(case=case, nontrivial='reorg' in classes,
+                   classes=['reorged.' + c for c in sorted(classes)] + ['reorged'],
+                   sample={'check': 'c02.reorged', 'ops': case['ops'][:6], 'bulk': case.get('bulk')})
+        if msg and (sig != 'index_differs' or any(w in msg for w in HISTORY_WORDS)):
+            raise Violation(msg, sig if sig != 'index_differs' else 'history_differs_after_reorg')
+    return run
+
+
 def run(ctx):
+    from pbt.checks import c03
     hyp_run(ctx, 'c02.sync', case_strategy(), body(ctx), ctx.pick(120, 3000))
+    hyp_run(ctx, 'c02.reorged', c03.case_strategy(ctx.tier == 'thorough'), body_reorged(ctx),
+            ctx.pick(80, 1500))
 
 
 def replay(ctx, check, case):
+    if check == 'c02.reorged':
+        from pbt.checks import c03
+        msg, sig, _ = c03.run_case(ctx.scratch, case)
+        if msg and (sig != 'index_differs' or any(w in msg for w in HISTORY_WORDS)):
+            return msg, sig if sig != 'index_differs' else 'history_differs_after_reorg'
+        return None
     msg, sig, _ = scenario.run_sync_case(ctx.scratch, case, PARTS)
     return (msg, sig) if msg else None
